@@ -392,6 +392,8 @@ def run_sharded(scenarios, tag, shards, timeout=900):
 
 # ---------------------------------------------------------------------------- oracles
 class Finding:
+    li = -1
+
     def __init__(self, prop, kind, scn, step, detail):
         self.prop, self.kind, self.scn, self.step, self.detail = prop, kind, scn, step, detail
 
@@ -436,6 +438,9 @@ def check_scenario(scn, lines):
     name = scn["name"]
     per_line = {}
     for li, ln in enumerate(lines):
+        for f in F:
+            if f.li < 0:
+                f.li = li - 1
         i = ln["i"]
         if i == -2:
             break
@@ -572,8 +577,14 @@ def check_scenario(scn, lines):
                     miss = sorted(sid for sid in need if str(sid) not in st["cache"].get(c, {}))
                     if miss:
                         F.append(Finding("C16", "missing-output-at-quiescence", name, i, {"conv": c, "streams": miss, "tags": tns}))
+    for f in F:
+        if f.li < 0:
+            f.li = len(lines) - 1 if not lines or lines[-1]["i"] != -2 else len(lines) - 2
     check_scenario.per_line = per_line
     return F, stats
+
+
+_check_inner = None
 
 
 def completion_budget(scn, st):
